@@ -338,12 +338,15 @@ class ExtLib:
         if name in ("eq", "ne", "lt", "le", "gt", "ge"):
             a, b = to_pw(vals[0]), to_pw(vals[1])
             d = a - b
-            if not d.is_leaf():
-                raise Unsupported("comparison of piecewise contents")
             op = {"lt": "<", "le": "<=", "gt": ">", "ge": ">="}.get(name)
             if op is None:
                 raise Unsupported("equality comparison content")
-            return PW.ite(Cond(d.leaf, op), pconst(1), pconst(0))
+
+            def ind(t):
+                if t.is_leaf():
+                    return PW.ite(Cond(t.leaf, op), pconst(1), pconst(0))
+                return PW.ite(t.cond, ind(t.a), ind(t.b))
+            return ind(d)
         if name in ("minimum", "maximum"):
             a, b = to_pw(vals[0]), to_pw(vals[1])
             d = a - b
@@ -759,6 +762,18 @@ class ExtLib:
         return s
 
     c_numpy_max = c_numpy_amax
+
+    def c_numpy_mean(self, a, k, n, ms):
+        """whole-array mean (no axis): an explicit reduction symbol naming the reduced view"""
+        v = a[0]
+        if not isinstance(v, Arr) or k.get("axis") is not None or len(a) > 1:
+            raise Unsupported("numpy.mean with an axis / of a non-array at %s" % self.I.where(n, ms))
+        self.I.trace.append(Op("NumpyOp", fn="mean", reads=[v], out=None, meta={}, where=self.I.where(n, ms),
+                               stack=tuple(self.I.call_stack), args=[v]))
+        name = "mean(%s)" % v.describe()
+        self.reductions = getattr(self, "reductions", {})
+        self.reductions[name] = ("mean", v)
+        return psym(name)
 
     def c_numpy_ascontiguousarray(self, a, k, n, ms):
         return a[0]
